@@ -145,7 +145,17 @@ def immediate_items(pt, rng, n):
                 n = {0: 255, 1: 256, 15: 257, 16: 257, 127: 258}.get(a, 257 if a % 2 else 256)
                 nreq = b % 60
                 vs = [pt.ScratchVar(pt.TealType.uint64, 2 * j + 1) for j in range(nreq)] + [pt.ScratchVar(pt.TealType.uint64) for _ in range(n - nreq)]
-                e = pt.Seq(*[v.store(I(7)) for v in vs], pt.Itob(pt.Add(I(0), I(0), *[v.load() for v in vs])))
+                if b % 3 == 1:
+                    # the same number of variables spread over two routines, neither of which exceeds the limit alone
+                    cut = 40 + (a + b) % 150
+                    mine, other = vs[:cut], vs[cut:]
+
+                    @pt.Subroutine(pt.TealType.uint64)
+                    def rest():
+                        return pt.Seq(*[v.store(I(7)) for v in other], pt.Add(I(0), I(0), *[v.load() for v in other]))
+                    e = pt.Seq(*[v.store(I(7)) for v in mine], pt.Itob(pt.Add(I(0), rest(), *[v.load() for v in mine])))
+                else:
+                    e = pt.Seq(*[v.store(I(7)) for v in vs], pt.Itob(pt.Add(I(0), I(0), *[v.load() for v in vs])))
             elif kind == "gload":
                 e = pt.Itob(pt.Btoi(pt.Itob(pt.ImportScratchValue(a, b))))
             elif kind == "gaid":
